@@ -818,9 +818,8 @@ static void reb_whfast512_jump_step(struct reb_simulation* r, const double _dt){
 #endif
     struct reb_integrator_whfast512* ri_whfast512 = &(r->ri_whfast512);
     struct reb_particle_avx512* p_jh = ri_whfast512->p_jh;
-    double m0 = r->particles[0].m;
-    
-    __m512d pf512 = _mm512_set1_pd(_dt/m0);
+    // _M holds the mass of the central object of the system each planet belongs to.
+    __m512d pf512 = _mm512_div_pd(_mm512_set1_pd(_dt), _M);
     
     __m512d sumx = _mm512_mul_pd(p_jh->m, p_jh->vx);
     __m512d sumy = _mm512_mul_pd(p_jh->m, p_jh->vy);
